@@ -51,10 +51,20 @@ fn exists(doc: &ast::ExecutableDocument, parents: Vec<&ast::Field>, path: &[&str
     for p in parents { let mut subs = Vec::new(); collect(doc, &p.selection_set.node, &mut subs); for s in subs { if s.name.node == path[0] { next.push(s); } } }
     exists(doc, next, &path[1..])
 }
-fn oview(doc: &ast::ExecutableDocument, f: &ast::Field, vars: &Variables) -> String {
-    let args: Vec<String> = f.arguments.iter().map(|(n, v)| format!("{}={}", n.node, v.node.clone().into_const_with(|name| vars.get(&name).cloned().ok_or(())).unwrap_or_default())).collect();
+/// the spec's CoerceArgumentValues on one argument value: None = omitted
+fn ovalue(v: &async_graphql_value::Value, vars: &Variables, defs: &[Positioned<ast::VariableDefinition>]) -> Option<async_graphql_value::ConstValue> {
+    use async_graphql_value::{ConstValue as C, Value as V};
+    Some(match v {
+        V::Variable(n) => { let d = defs.iter().find(|d| d.node.name.node == *n)?; match vars.get(n) { Some(x) => x.clone(), None => d.node.default_value.as_ref()?.node.clone() } }
+        V::Null => C::Null, V::Number(n) => C::Number(n.clone()), V::String(s) => C::String(s.clone()), V::Boolean(b) => C::Boolean(*b), V::Binary(b) => C::Binary(b.clone()), V::Enum(e) => C::Enum(e.clone()),
+        V::List(l) => C::List(l.iter().map(|x| ovalue(x, vars, defs).unwrap_or(C::Null)).collect()),
+        V::Object(o) => C::Object(o.iter().filter_map(|(k, x)| ovalue(x, vars, defs).map(|y| (k.clone(), y))).collect()),
+    })
+}
+fn oview(doc: &ast::ExecutableDocument, f: &ast::Field, vars: &Variables, defs: &[Positioned<ast::VariableDefinition>]) -> String {
+    let args: Vec<String> = f.arguments.iter().filter_map(|(n, v)| ovalue(&v.node, vars, defs).map(|x| format!("{}={}", n.node, x))).collect();
     let mut subs = Vec::new(); collect(doc, &f.selection_set.node, &mut subs);
-    format!("{}({})[{}]", f.name.node, args.join(","), subs.iter().map(|s| oview(doc, s, vars)).collect::<Vec<_>>().join(" "))
+    format!("{}({})[{}]", f.name.node, args.join(","), subs.iter().map(|s| oview(doc, s, vars, defs)).collect::<Vec<_>>().join(" "))
 }
 
 /// args {"query": "...", "variables": {...}}  -- the document must select `obj` exactly once at the root
@@ -69,7 +79,7 @@ pub fn lookahead(args: &Value) -> Outcome {
     let obj: Vec<&ast::Field> = roots.into_iter().filter(|f| f.name.node == "obj").collect();
     let mut exp = Vec::new();
     for p in PATHS { exp.push(format!("{}={}", p.join("."), exists(&doc, obj.clone(), p))); }
-    exp.push(oview(&doc, obj[0], &vars));
+    exp.push(oview(&doc, obj[0], &vars, &op.node.variable_definitions));
     Outcome { holds: resp.errors.is_empty() && seen == exp, observed: format!("{:?} errors {:?}", seen, resp.errors.iter().map(|e| e.message.clone()).collect::<Vec<_>>()), expected: format!("{:?}", exp) }
 }
 
@@ -83,6 +93,12 @@ pub fn inputs(_seed: u64) -> impl Iterator<Item = Value> {
         json!({"query": "{ obj { a ...BC val(n: 3) } } fragment BC on Obj { b detail { c } }"}),
         json!({"query": "query($v: Int) { obj { a ...BC val(n: $v) } } fragment BC on Obj { b }", "variables": {"v": 9}}),
         json!({"query": "{ obj { ... { a } val } }"}),
+        // resolved arguments: variable defaults apply, an omitted variable leaves the argument out, explicit null stays null
+        json!({"query": "query($v: Int = 4) { obj { val(n: $v) } }"}),
+        json!({"query": "query($v: Int = 4) { obj { val(n: $v) } }", "variables": {"v": 8}}),
+        json!({"query": "query($v: Int = 4) { obj { val(n: $v) } }", "variables": {"v": null}}),
+        json!({"query": "query($v: Int) { obj { val(n: $v) a } }"}),
+        json!({"query": "query($v: Int = 4, $w: Int) { obj { ...F } } fragment F on Obj { x: val(n: $v) y: val(n: $w) }", "variables": {"w": 2}}),
         json!({"query": "{ obj { ... on Obj { ... on Obj { detail { inner { x y } } } } b } }"}),
         json!({"query": "{ obj { x: a y: a ...F b } } fragment F on Obj { ...G a } fragment G on Obj { detail { c } }"}),
         json!({"query": "{ obj { ...F } } fragment F on Obj { val(n: 1) }"}),
